@@ -5,11 +5,13 @@ Operational model of the trainer / monitor lifecycle (property C15), shaped like
 `inferno/core/infrastructure.py` (see `Model/Hooks.lean`), AFTER the repairs D15–D17.
 Core Lean only (no imports).
 
-One layer with a fixed set of cells `topo : cell index ↦ (connection, neuron)` (the layer owns its
-cells for the whole program); any number of trainers; monitors are objects in a global table.
+Any number of layers with a fixed set of cells `topo : cell index ↦ (layer, connection, neuron)`
+(a layer owns its cells for the whole program; connection / neuron names are per layer, so two
+layers may use the same names); any number of trainers; monitors are objects in a global table.
 
-  Layer    : training flag, `_forward_hooks` as an ordered list `(handle id, monitor id)`
-             (`prepend=True` ⇒ front), torch's handle counter.  All shipped trainers use
+  Layers   : per layer a training flag; ALL layers' `_forward_hooks` are kept in one ordered list
+             `(handle id, monitor id)` (`prepend=True` ⇒ front; torch's handle counter is global); the
+             entries of layer `l` are those whose monitor was constructed on `l` (`Monitor.layer`).  All shipped trainers use
              post-hooks (`as_prehook=False`), `train_update=True`, `eval_update=False`.
   cellMons : `Observable.__monitors` of every cell — a WEAK name → monitor map shared by ALL
              trainers (the D18 mechanism): `(cell, monitor name, monitor id)`.
@@ -57,6 +59,7 @@ structure Monitor where
   cell     : Nat
   count    : Nat
   expected : Nat
+  layer    : Nat          -- the basis (layer) the monitor was constructed on and registers with
 deriving DecidableEq, Repr
 
 structure Trainer where
@@ -68,8 +71,12 @@ structure Trainer where
 deriving DecidableEq, Repr
 
 structure State where
-  topo          : List (Nat × Nat)
-  layerTraining : Bool
+  topo          : List (Nat × Nat × Nat)
+  layerTraining : Nat → Bool
+  /-- `false` = `Observable.add_monitor` as it stands (its "different layer / dead basis" test
+  `not (alive or id != id)` never skips anything); `true` = the test repaired (skip observables of
+  another layer) -/
+  layerFilter   : Bool
   nextId        : Nat
   post          : List (Nat × Nat)
   cellMons      : List (Nat × Nat × Nat)
@@ -78,11 +85,14 @@ structure State where
   trainers      : Nat → Trainer
   nTrainers     : Nat
 
-def noMonitor : Monitor := ⟨0, false, none, false, .cellmons 0, none, [], 0, 0, 0⟩
+def noMonitor : Monitor := ⟨0, false, none, false, .cellmons 0, none, [], 0, 0, 0, 0⟩
 def noTrainer : Trainer := ⟨0, false, false, [], []⟩
 
-def init (topo : List (Nat × Nat)) : State :=
-  ⟨topo, true, 0, [], [], fun _ => noMonitor, 0, fun _ => noTrainer, 0⟩
+def init (topo : List (Nat × Nat × Nat)) (layerFilter : Bool := false) : State :=
+  ⟨topo, fun _ => true, layerFilter, 0, [], [], fun _ => noMonitor, 0, fun _ => noTrainer, 0⟩
+
+/-- the layer that owns cell `cell` -/
+def cellLayer (s : State) (cell : Nat) : Nat := (s.topo[cell]?.map (·.1)).getD 0
 
 inductive Op where
   | newTrainer (kind : Nat)
@@ -91,8 +101,8 @@ inductive Op where
   | addMonitor (t n mname : Nat) (sel : AttrSel) (unique prepend : Bool) (tags : Nat)
   | delMonitor (t n mname : Nat)
   | trainerTrain (t : Nat) (mode : Bool)
-  | layerTrain (mode : Bool)
-  | layerStep
+  | layerTrain (l : Nat) (mode : Bool)
+  | layerStep (l : Nat)
   | trainerStep (t : Nat)
   | clear (t : Nat)
   | collect (t : Nat)
@@ -150,7 +160,7 @@ def newMonitor (s : State) (t : Nat) (prepend : Bool) (path : Path) (tags : Opti
     (reads : List Nat) (cell : Nat) : State × Nat :=
   let mid := s.nMons
   let s1 := setMon { s with nMons := s.nMons + 1 } mid
-    ⟨t, true, none, prepend, path, tags, reads, cell, 0, 0⟩
+    ⟨t, true, none, prepend, path, tags, reads, cell, 0, 0, cellLayer s cell⟩
   (registerMon s1 mid, mid)
 
 /-- `cell.__monitors[name] = monitor` -/
@@ -163,10 +173,10 @@ def getCellMon (cm : List (Nat × Nat × Nat)) (cell mname : Nat) : Option Nat :
 /-- `Cell.local_remap` + `Layer._realign_attribute` -/
 def realign (s : State) (cell : Nat) : AttrSel → Except Err Path
   | .neuron k => match s.topo[cell]? with
-    | some cn => .ok (.neuron cn.2 k)
+    | some cn => .ok (.neuron cn.2.2 k)
     | none => .error .AttributeError
   | .conn k => match s.topo[cell]? with
-    | some cn => .ok (.conn cn.1 k)
+    | some cn => .ok (.conn cn.2.1 k)
     | none => .error .AttributeError
   | .cellmons => if cell < s.topo.length then .ok (.cellmons cell) else .error .AttributeError
   | .bad => .error .RuntimeError           -- "cell does not have an attribute …"
@@ -188,12 +198,14 @@ def groupsErase (gs : List (Nat × List (Nat × Nat))) (n mname : Nat) : List (N
 /-- the alias search of `Observable.add_monitor` over `MonitorPool.pool`: observables in
 `observed_` order that have a group; the named monitor must carry equal `_tags`
 (`tags` and the realigned attribute); the LAST match wins, the search stops at the cell itself.
-(The "different layer / dead basis" test in the code is vacuous.) -/
+The "different layer / dead basis" test of the code is vacuous (`layerFilter = false`); repaired
+(`layerFilter = true`) it skips observables owned by another layer. -/
 def findAlias (s : State) (T : Trainer) (cell mname : Nat) (tags : Nat) (path : Path) : Option Nat :=
   let rec go (obs : List (Nat × Nat)) (found : Option Nat) : Option Nat :=
     match obs with
     | [] => found
     | (oname, ocell) :: rest =>
+      if s.layerFilter && cellLayer s ocell != cellLayer s cell then go rest found else
       match lookup T.groups oname with
       | none => go rest found
       | some g =>
@@ -347,16 +359,20 @@ def monHasData (s : State) (T : Trainer) (n r : Nat) : Bool :=
   | some mid => decide ((s.mons mid).count > 0)
   | none => false
 
-/-- GHOST: the specification counts a layer step for every monitor held by a trainer that is in
-training mode while the layer is in training mode -/
-def ghostStep (s : State) : State :=
+/-- GHOST: the specification counts a step of layer `l` for every monitor constructed on `l`
+and held by a trainer that is in training mode while `l` is in training mode -/
+def ghostStep (s : State) (l : Nat) : State :=
   { s with mons := fun mid =>
       if (s.mons mid).alive && (s.trainers (s.mons mid).owner).alive && (s.trainers (s.mons mid).owner).training
-          && s.layerTraining && (poolMids (s.trainers (s.mons mid).owner)).contains mid
+          && s.layerTraining l && ((s.mons mid).layer == l)
+          && (poolMids (s.trainers (s.mons mid).owner)).contains mid
       then { s.mons mid with expected := (s.mons mid).expected + 1 } else s.mons mid }
 
+/-- the forward hooks of layer `l`, in order -/
+def layerHooks (s : State) (l : Nat) : List (Nat × Nat) := s.post.filter (fun e => (s.mons e.2).layer == l)
+
 /-- the hooks that run during `layer(...)`: in list order, until one raises -/
-def ranHooks (s : State) : List (Nat × Nat) := s.post.takeWhile (fun e => !blocked s e)
+def ranHooks (s : State) (l : Nat) : List (Nat × Nat) := (layerHooks s l).takeWhile (fun e => !blocked s e)
 
 /-- every hook that ran pushed one observation into its reducer -/
 def countStep (s : State) (ran : List (Nat × Nat)) : State :=
@@ -401,18 +417,19 @@ def stepCore (s : State) : Op → State × Out
     if !(s.trainers t).alive then (s, .noref)
     else
       (setAll (setTrainer s t { s.trainers t with training := mode }) mode (distinctMids (s.trainers t)), .ok)
-  | .layerTrain mode => ({ s with layerTraining := mode }, .ok)
-  | .layerStep =>
+  | .layerTrain l mode => ({ s with layerTraining := fun i => if i = l then mode else s.layerTraining i }, .ok)
+  | .layerStep l =>
     -- CODE: `train_update=True, eval_update=False` hooks run iff the layer is training
-    if !s.layerTraining then (ghostStep s, .ok)
-    else (countStep (ghostStep s) (ranHooks s),
-          if (ranHooks s).length < s.post.length then .err .AttributeError else .ok)
+    if !s.layerTraining l then (ghostStep s l, .ok)
+    else (countStep (ghostStep s l) (ranHooks s l),
+          if (ranHooks s l).length < (layerHooks s l).length then .err .AttributeError else .ok)
   | .trainerStep t =>
     if !(s.trainers t).alive then (s, .noref)
-    else if !((s.trainers t).training && s.layerTraining) then (s, .ok)        -- every cell is skipped
+    else if !(s.trainers t).training then (s, .ok)                  -- every cell is skipped
     else
-      (s, if (s.trainers t).cells.all (fun e => (required (s.trainers t).kind).all
-            (fun r => monHasData s (s.trainers t) e.1 r)) then .ok else .fail)
+      -- a cell is skipped unless `cell.training` (its layer's mode)
+      (s, if (s.trainers t).cells.all (fun e => !s.layerTraining (cellLayer s e.2) ||
+            (required (s.trainers t).kind).all (fun r => monHasData s (s.trainers t) e.1 r)) then .ok else .fail)
   | .clear t =>
     if !(s.trainers t).alive then (s, .noref) else (clearMons s t, .ok)
   | .collect t =>
